@@ -358,7 +358,7 @@ def _build_model_locked(gen):
     coq_makefile()
     h = hashlib.sha256()
     for f in sorted(os.listdir(COQ)):
-        if f.endswith(".v") and not f.startswith("Properties_") and (not f.endswith("_lemmas.v") or f in ("Seek_lemmas.v", "SeekH_lemmas.v", "SeekE_lemmas.v")):
+        if f.endswith(".v") and not f.startswith("Properties_") and (not f.endswith("_lemmas.v") or f in ("Seek_lemmas.v", "SeekH_lemmas.v", "SeekE_lemmas.v", "Lap_lemmas.v")):
             h.update(open(os.path.join(COQ, f), "rb").read())
     for f in sorted(os.listdir(ML)):
         if f.endswith(".ml"):
@@ -566,7 +566,7 @@ def run_replay_pair(harness_exe, mode, cases_text, workdir, timeout=900, env=Non
 
 
 # lines only the model driver prints (theorem hypotheses evaluated on the model): never part of the exact diff
-MODEL_ONLY = ("thm ", "thmh ", "tho ")
+MODEL_ONLY = ("thm ", "thmh ", "tho ", "thml ")
 
 
 def diff_cases(il, ml, skip_prefixes=("prop ",)):
